@@ -62,7 +62,9 @@ def ref_recip_dipole_dipole(args):
     dd, dd_q0, G_list, q_cart, q_dir, born, eps, pos, is_q_zero, factor, lam, tol = args[:12]
     npr = len(pos)
     want = ref_recip_dd_value(_c(dd_q0).reshape(npr, 3, 3), G_list, q_cart, None if is_q_zero else q_dir, born, eps, pos, factor, lam, tol)
-    return {0: want.reshape(-1)}, 1e-9
+    # natural scale: one reciprocal-lattice term with the charges at hand (all-zero Born charges leave rounding residues of the self term only)
+    nat = abs(float(factor)) * max(float(np.abs(born).max()) ** 2, 1e-12) / max(float(np.linalg.eigvalsh((np.asarray(eps) + np.asarray(eps).T) / 2).min()), 1e-12)
+    return {0: want.reshape(-1)}, 1e-9, nat
 
 
 def ref_recip_dipole_dipole_q0(args):
@@ -70,7 +72,8 @@ def ref_recip_dipole_dipole_q0(args):
     dd = times_born(dd_core(G_list, np.zeros(3), None, eps, pos, lam, tol), born)
     s = dd.sum(axis=2)  # (i, alpha, beta)
     want = (s + s.conj().transpose(0, 2, 1)) / 2
-    return {0: want.reshape(-1)}, 1e-9
+    nat = max(float(np.abs(born).max()) ** 2, 1e-12) / max(float(np.linalg.eigvalsh((np.asarray(eps) + np.asarray(eps).T) / 2).min()), 1e-12)
+    return {0: want.reshape(-1)}, 1e-9, nat
 
 
 def dynmat_value(q, fc, svecs, multi, masses, s2p, p2s, charge=None):
